@@ -271,7 +271,14 @@ func tailRespond(st *tailStats) func(context.Context, *middleware.Chain, *dns.Ms
 		m := new(dns.Msg)
 		m.SetReply(req)
 		m.RecursionAvailable = true
+		if strings.HasPrefix(lab, "x-") {
+			// resolution of these names fails: the cache records the failure (RFC 9520) and answers the next asks itself
+			m.Rcode = dns.RcodeServerFailure
+			return m
+		}
 		m.Answer = answerRRs(q.Name, q.Qtype)
+		// "a-" names are validated: the only answers of this rig that carry AD=1
+		m.AuthenticatedData = strings.HasPrefix(lab, "a-")
 		return m
 	}
 }
@@ -607,6 +614,10 @@ type traceLine struct {
 	TxCk  string `json:"txck"`
 	TxN   bool   `json:"txn"` // the bytes in TX carry an NSID option
 	TxK   bool   `json:"txk"` // ... an edns-tcp-keepalive option
+	// flags-word provenance: AD / TC / Z of the bytes in TX (rk = "a" marks a packet whose answer is validated)
+	TxAD bool `json:"txad"`
+	TxTC bool `json:"txtc"`
+	TxZ  bool `json:"txz"`
 	Stamp int64  `json:"-"`
 }
 
@@ -677,6 +688,9 @@ func (t *traceSink) fn(e *server.VerifUDPEvent) {
 	}
 	if len(tx) > 0 {
 		ln.TxID, ln.TxQ, _ = tagOf(tx)
+		if len(tx) >= 12 {
+			ln.TxAD, ln.TxTC, ln.TxZ = tx[3]&0x20 != 0, tx[2]&0x02 != 0, tx[3]&0x40 != 0
+		}
 		if f, ok := wireOPT(tx); ok {
 			ln.TxOpt, ln.TxCk = f.has, f.cookieOf()
 			ln.TxN, ln.TxK = f.hasOption(dns.EDNS0NSID), f.hasOption(dns.EDNS0TCPKEEPALIVE)
